@@ -178,6 +178,9 @@ class _Lower:
             q = f"{prefix}.{name}#{k}"
             k += 1
         fi.qualname = q
+        from . import alpha
+        if alpha.normalise_function(q, fn):
+            self.mod.renamed = getattr(self.mod, "renamed", 0) + 1
         self.mod.funcs[q] = fi
         self.mod.n_nodes += sum(1 for _ in ast.walk(fn))
 
